@@ -10,7 +10,7 @@ G1 original names: ReadNames asks for num_vars+num_common_exprs and num_cons+num
 S1 the name file scanner and NameProvider::name never read outside the mapped file.
 """
 import re
-from ..cfg import Facts, kids, strip, walk, cv, render, call_args, call_object
+from ..cfg import norm_facts, xrender, expand_locals, Facts, kids, strip, walk, cv, render, call_args, call_object
 from ..cfg import short_loc as _short_loc
 from ..facts import export_many, AnalysisBroken
 
@@ -93,18 +93,102 @@ def run(rep, ctx):
                  "%s reads the text of %s: a copy that bypasses the counter yields two items with one name" %
                  (key, "another VCString directly" if "other" in kinds_ else "the object outside the allowed accessors"))
     mc = one(VS + "::MakeCountedName")
-    incs = [n for n in mc.walk() if n["k"] == "UnaryOperator" and n.get("op") == "++" and render(kids(n)[0]) == "n_"]
-    rets = [r for r in mc.walk() if r["k"] == "ReturnStmt"]
-    okm = len(incs) == 1 and len(rets) == 1 and mc.cfg.dominates(incs[0], rets[0]) or (len(incs) == 1 and any(x["i"] == incs[0]["i"] for x in walk(rets[0])))
-    co = strip(kids(rets[0])[0]) if rets else None
-    while co is not None and co["k"] in ("CXXConstructExpr", "ExprWithCleanups", "CXXBindTemporaryExpr", "MaterializeTemporaryExpr", "ImplicitCastExpr") and kids(co):
-        co = strip(kids(co)[0])
-    okf = co is not None and co["k"] == "ConditionalOperator"
-    if okf:
-        c, a, b = kids(co)
-        okf = render(c).replace(" ", "") in ("n_++==0", "0==n_++") and render(a) == "s_" and "to_string(n_)" in render(b).replace("std::", "") and "s_" in render(b)
-    w1.check(okm and okf, "counted-name", short_loc(mc.loc), "MakeCountedName: first copy = the name, copy k>1 = name_k_; the counter advances on every call",
-             "MakeCountedName is `%s`" % (render(co)[:90] if co else "?"))
+    # case evaluation of MakeCountedName for a counter value N: returned text and counter afterwards
+    class _Ret(Exception):
+        def __init__(self, v):
+            self.v = v
+
+    def mc_eval(e, env):
+        e0 = e
+        e = strip(e)
+        while e is not None and e["k"] in ("CXXConstructExpr", "ExprWithCleanups", "CXXBindTemporaryExpr", "MaterializeTemporaryExpr", "CXXFunctionalCastExpr") and len(kids(e)) == 1:
+            e = strip(kids(e)[0])
+        k = e["k"]
+        if k == "IntegerLiteral" or (k == "CXXBoolLiteralExpr"):
+            return int(e["v"]) if k == "IntegerLiteral" else int(str(e.get("v")).lower() in ("true", "1"))
+        if k == "MemberExpr" and e.get("name") == "n_":
+            return env["n"]
+        if k == "MemberExpr" and e.get("name") == "s_":
+            return ("text", [])
+        if k == "DeclRefExpr" and e.get("declId") in env["loc"]:
+            return env["loc"][e["declId"]]
+        if k == "UnaryOperator" and e.get("op") in ("++", "--") and render(kids(e)[0]).replace("this->", "") == "n_":
+            old_ = env["n"]
+            env["n"] += 1 if e["op"] == "++" else -1
+            env["incs"] += 1
+            return old_ if e.get("postfix") else env["n"]
+        if k == "UnaryOperator" and e.get("op") == "!":
+            return int(not mc_eval(kids(e)[0], env))
+        if k == "BinaryOperator" and e.get("op") in ("==", "!=", "<", ">", "<=", ">=", "&&", "||"):
+            a = mc_eval(kids(e)[0], env)
+            if e["op"] == "&&":
+                return int(bool(a) and bool(mc_eval(kids(e)[1], env)))
+            if e["op"] == "||":
+                return int(bool(a) or bool(mc_eval(kids(e)[1], env)))
+            b = mc_eval(kids(e)[1], env)
+            return int({"==": a == b, "!=": a != b, "<": a < b, ">": a > b, "<=": a <= b, ">=": a >= b}[e["op"]])
+        if k == "ConditionalOperator":
+            c, a, b = kids(e)
+            return mc_eval(a if mc_eval(c, env) else b, env)
+        if k == "CallExpr" and (e.get("callee") or "").endswith("to_string"):
+            return ("num", mc_eval(call_args(e)[0], env))
+        if k == "CharacterLiteral":
+            return ("chr", chr(int(e["v"])))
+        if k == "StringLiteral":
+            return ("str", e.get("v"))
+        if k == "CXXOperatorCallExpr" and e.get("op") == "+":
+            a, b = [mc_eval(x, env) for x in call_args(e)[:2]]
+            pa = a[1] if isinstance(a, tuple) and a[0] == "text" else None
+            if pa is None:
+                raise AnalysisBroken("C19.W1: MakeCountedName: concatenation does not start with the name")
+            return ("text", pa + [b])
+        raise AnalysisBroken("C19.W1: MakeCountedName: expression `%s` outside the fragment" % render(e0)[:50])
+
+    def mc_run(stmts, env):
+        for st_ in stmts:
+            if st_ is None:
+                continue
+            k = st_["k"]
+            if k == "CompoundStmt":
+                mc_run(kids(st_), env)
+            elif k == "DeclStmt":
+                for v in kids(st_):
+                    if v["k"] == "VarDecl" and kids(v):
+                        env["loc"][v["declId"]] = mc_eval(kids(v)[0], env)
+            elif k == "IfStmt":
+                ch = [x for x in st_["c"] if x is not None]
+                if mc_eval(ch[0], env):
+                    mc_run([ch[1]], env)
+                elif len(ch) > 2:
+                    mc_run([ch[2]], env)
+            elif k == "ReturnStmt":
+                raise _Ret(mc_eval(kids(st_)[0], env))
+            elif k == "NullStmt":
+                pass
+            else:
+                mc_eval(st_, env)
+
+    def mc_case(n0):
+        env = dict(n=n0, loc={}, incs=0)
+        try:
+            mc_run(kids(mc.body), env)
+        except _Ret as r_:
+            return r_.v, env["n"], env["incs"]
+        raise AnalysisBroken("C19.W1: MakeCountedName has a path without a return")
+    problems = []
+    for n0 in (0, 1, 4):
+        v, n1, ni = mc_case(n0)
+        if n1 != n0 + 1 or ni != 1:
+            problems.append("with counter %d the counter becomes %d" % (n0, n1))
+        want = ("text", []) if n0 == 0 else ("text", [("chr", "_"), ("num", n0 + 1), ("chr", "_")])
+        got = v
+        if isinstance(got, tuple) and got[0] == "text":
+            got = ("text", [("chr", x[1]) if x[0] == "str" and len(x[1]) == 1 else x for x in got[1]])
+        if got != want:
+            problems.append("with counter %d the returned text is %s, expected %s" % (n0, got, want))
+    okm, okf = not problems, True
+    w1.check(okm and okf, "counted-name", short_loc(mc.loc), "MakeCountedName: first copy = the name, copy k>1 = name_k_; the counter advances on every call (cases N = 0, 1, 4 evaluated)",
+             "MakeCountedName: %s" % "; ".join(problems[:2]))
     cc = one(VS + "::VCString", lambda f: f.params and "VCString" in (f.params[0].get("t") or ""))
     ini = [i for i in cc.d.get("inits", []) if i.get("name") == "s_"]
     w1.check(len(ini) == 1 and any(c.get("callee") == VS + "::MakeCountedName" for c in walk(ini[0])), "copy-ctor", short_loc(cc.loc),
@@ -245,7 +329,7 @@ def run(rep, ctx):
     rets = [r for r in nm.walk() if r["k"] == "ReturnStmt"]
     g_ok = False
     for r in rets:
-        fa = [(render(nm.nodes[cid]).replace(" ", ""), pol) for cid, pol in nm.cfg.facts_at(r)]
+        fa = norm_facts(nm, r, canon=True)
         if ("index+1<names_.size()", False) in fa:
             g_ok = "writer_" in render(r)
     g1.check(g_ok and len(rets) == 2, "generic-fallback", short_loc(nm.loc), "indexes beyond the names read yield the generated name")
